@@ -64,6 +64,12 @@ pub fn run(ctx: &Ctx, out: &mut Out) {
             }
         };
         out.count("programs");
+        if graph {
+            // recursive solver's fixed-point framework vs its Lean model on the plain history of the
+            // single-atom goals (Props/C05fp.lean: the model computes lfp / gfp on these instances)
+            let atoms: Vec<String> = goals.iter().filter(|g| !g.contains(',') && !g.contains("not")).cloned().collect();
+            crate::ops::fp::plain_history_case(out, &text, &atoms, "C02");
+        }
         for gtext in goals {
             let goal = match lower_goal_text(&program, &gtext) {
                 Ok(g) => g,
